@@ -58,13 +58,31 @@ Section W.
         (flat_map (fun k => write_node o k false) ks)].
   Proof. reflexivity. Qed.
 
-  Definition clip_kid (c : option clipdef) (k : node) : list xout :=
-    match k with NPath pi pvz fl st => [write_path o pi fl st (option_map c_id c)] | _ => [] end.
+  (* one child of a group written in clip-path mode (write_clip_path_children) *)
+  Definition clip_kid (cid : option N) (k : node) : list xout :=
+    match k with
+    | NPath pi pvz fl st => [write_path o pi fl st cid]
+    | NGroup inner =>
+        match cid, option_map c_id (g_clip inner) with
+        | Some _, Some _ => []
+        | _, ic => write_clipkids o inner (match cid with Some x => Some x | None => ic end)
+        end
+    | NText _ flat _ => write_clipkids o flat cid
+    | NImage _ _ => []
+    end.
+  Lemma write_clipkids_eq i sy c m fs ks cid :
+    write_clipkids o (G i sy c m fs ks) cid = flat_map (clip_kid cid) ks.
+  Proof.
+    cbn [write_clipkids]. induction ks as [|k r IH]; [reflexivity|].
+    destruct k; simpl; rewrite <- IH; try reflexivity.
+    all: try (destruct cid, (option_map c_id (g_clip g)); reflexivity).
+  Qed.
   Lemma write_group_clip i sy c m fs ks :
-    write_group o (G i sy c m fs ks) true = flat_map (clip_kid c) ks.
+    write_group o (G i sy c m fs ks) true = flat_map (clip_kid (option_map c_id c)) ks.
   Proof.
     cbn [write_group]. induction ks as [|k r IH]; [reflexivity|].
-    destruct k; simpl; rewrite <- IH; reflexivity.
+    destruct k; simpl; rewrite <- IH; try reflexivity.
+    all: try (destruct (option_map c_id c), (option_map c_id (g_clip g)); reflexivity).
   Qed.
   Lemma write_node_group g clip : write_node o (NGroup g) clip = write_group o g clip.
   Proof. reflexivity. Qed.
@@ -133,6 +151,40 @@ Section W.
       - rewrite refs_of_eq in Hr. simpl in Hr. apply Hspans. exact Hr.
     Qed.
 
+    (* clip-path mode, any nesting depth: the paths carry `cid`; entering a group may pick up that group's own clip id *)
+    Definition cid_good (cid : option N) : Prop := forall x, cid = Some x -> Good (p, x).
+    Lemma clip_content_all :
+      (forall n, In n U -> forall cid r, cid_good cid -> In r (lrefs (clip_kid cid n)) -> Good r) /\
+      (forall g, (forall k, In k (g_kids g) -> In k U) ->
+                 forall cid r, cid_good cid -> In r (lrefs (write_clipkids o g cid)) -> Good r) /\
+      (forall c : clipdef, True) /\ (forall m : maskdef, True) /\ (forall f : filterdef, True) /\
+      (forall x : prim, True) /\ (forall x : paint, True).
+    Proof.
+      apply tree_mutind; auto.
+      - (* NGroup *)
+        intros g Hg Hn cid r Hcid Hr. cbn [clip_kid] in Hr.
+        assert (Hk : forall k, In k (g_kids g) -> In k U) by (intros k Hk; apply (U_kid root g k Hn Hk)).
+        destruct cid as [x|].
+        + destruct (option_map c_id (g_clip g)); [destruct Hr|]. apply (Hg Hk (Some x) r Hcid Hr).
+        + apply (Hg Hk (option_map c_id (g_clip g)) r); auto.
+          intros x E. destruct (g_clip g) as [cd|] eqn:Ec; [|discriminate]. simpl in E. inversion E; subst.
+          apply (Hc g cd Hn). rewrite Ec. simpl. apply clip_chain_head.
+      - (* NPath *)
+        intros i vz fl st _ _ Hn cid r Hcid Hr. cbn [clip_kid] in Hr. rewrite lrefs_single in Hr.
+        apply write_path_refs in Hr. destruct Hr as [[Hsv ->]|[[Hsv ->]|(c0 & E & ->)]].
+        + apply (Hp i vz fl st fl Hn); simpl; auto.
+        + apply (Hp i vz fl st st Hn); simpl; auto.
+        + apply Hcid. exact E.
+      - (* NImage *)
+        intros i sub _ Hn cid r _ Hr. destruct Hr.
+      - (* NText *)
+        intros i flat ch Hfl Hn cid r Hcid Hr. cbn [clip_kid] in Hr. apply (Hfl (fun k Hk => U_text_kid root i flat ch k Hn Hk) cid r Hcid Hr).
+      - (* G *)
+        intros i sy c m fs ks _ _ _ Hks Hkids cid r Hcid Hr. simpl g_kids in Hkids. rewrite write_clipkids_eq in Hr.
+        apply in_lrefs_flat_map in Hr. destruct Hr as (k & Hk & Hr). rewrite Forall_forall in Hks.
+        apply (Hks k Hk (Hkids k Hk) cid r Hcid Hr).
+    Qed.
+
     Lemma content_all :
       (forall n, In n U -> forall clip r, In r (lrefs (write_node o n clip)) -> Good r) /\
       (forall g, (forall k, In k (g_kids g) -> In k U) -> own_ok g ->
@@ -171,11 +223,8 @@ Section W.
         intros i sy c m fs ks _ _ _ Hks Hkids Hown clip r Hr. destruct Hown as (O1 & O2 & O3). simpl g_kids in Hkids. simpl g_clip in O1. simpl g_mask in O2. simpl g_filters in O3.
         destruct clip.
         + rewrite write_group_clip in Hr. apply in_lrefs_flat_map in Hr. destruct Hr as (k & Hk & Hr).
-          destruct k as [|pi pvz fl st| |]; unfold clip_kid in Hr; try (destruct Hr; fail). rewrite lrefs_single in Hr.
-          apply write_path_refs in Hr. destruct Hr as [[Hsv ->]|[[Hsv ->]|(c0 & E & ->)]].
-          * apply (Hp pi pvz fl st fl (Hkids _ Hk)); simpl; auto.
-          * apply (Hp pi pvz fl st st (Hkids _ Hk)); simpl; auto.
-          * destruct c as [cd|]; simpl in E; [|discriminate]. inversion E; subst. apply O1. reflexivity.
+          destruct clip_content_all as (Hclip & _). apply (Hclip k (Hkids k Hk) (option_map c_id c) r); auto.
+          intros x E. destruct c as [cd|]; simpl in E; [|discriminate]. inversion E; subst. apply O1. reflexivity.
         + rewrite write_group_noclip, lrefs_single, refs_of_eq in Hr. rewrite !flat_map_app, id_attr_refs, style_refs, app_nil_r in Hr.
           apply in_app_or in Hr. destruct Hr as [Hr|Hr].
           * simpl app in Hr. apply in_app_or in Hr. destruct Hr as [Hr|Hr].
@@ -646,6 +695,21 @@ Section Prefix.
     - apply Hsp.
   Qed.
 
+  Lemma allp_clip_content :
+    (forall n cid, allp (lmarks (clip_kid o cid n))) /\
+    (forall g cid, allp (lmarks (write_clipkids o g cid))) /\
+    (forall c : clipdef, True) /\ (forall m : maskdef, True) /\ (forall f : filterdef, True) /\
+    (forall x : prim, True) /\ (forall x : paint, True).
+  Proof.
+    apply tree_mutind; auto.
+    - intros g Hg cid. cbn [clip_kid]. destruct cid as [x|]; [destruct (option_map c_id (g_clip g)); [apply allp_nil|]|]; apply Hg.
+    - intros i vz fl st _ _ cid. cbn [clip_kid]. rewrite lmarks_single. apply allp_path.
+    - intros i sub _ cid. apply allp_nil.
+    - intros i sy c m fs ks _ _ _ Hks cid. rewrite write_clipkids_eq. unfold lmarks. intros r Hr.
+      apply in_flat_map in Hr. destruct Hr as (x & Hx & Hr). apply in_flat_map in Hx. destruct Hx as (k & Hk & Hx).
+      rewrite Forall_forall in Hks. apply (Hks k Hk cid r). unfold lmarks. apply in_flat_map. exists x. split; auto.
+  Qed.
+
   Lemma allp_content :
     (forall n clip, allp (lmarks (write_node o n clip))) /\
     (forall g clip, allp (lmarks (write_group o g clip))) /\
@@ -665,8 +729,7 @@ Section Prefix.
     - intros i sy c m fs ks _ _ _ Hks clip. destruct clip.
       + rewrite write_group_clip. unfold lmarks. intros r Hr. apply in_flat_map in Hr. destruct Hr as (x & Hx & Hr).
         apply in_flat_map in Hx. destruct Hx as (k & Hk & Hx).
-        destruct k as [|pi pvz fl st| |]; unfold clip_kid in Hx; try (destruct Hx; fail).
-        destruct Hx as [<-|[]]. apply (allp_path _ _ _ _ r Hr).
+        apply (proj1 allp_clip_content k (option_map c_id c) r). unfold lmarks. apply in_flat_map. exists x. split; auto.
       + rewrite write_group_noclip. rewrite lmarks_single, marks_of_eq, !flat_map_app.
         repeat apply allp_app; try apply allp_id; try apply allp_opt.
         * destruct fs as [|f0 fr]; [apply allp_nil|]. simpl flat_map. rewrite app_nil_r.
@@ -782,6 +845,20 @@ Section Xlink.
     destruct cr; reflexivity.
   Qed.
 
+  Lemma xl_clip_content :
+    (forall n cid, lx (clip_kid o cid n) = false) /\
+    (forall g cid, lx (write_clipkids o g cid) = false) /\
+    (forall c : clipdef, True) /\ (forall m : maskdef, True) /\ (forall f : filterdef, True) /\
+    (forall x : prim, True) /\ (forall x : paint, True).
+  Proof.
+    apply tree_mutind; auto.
+    - intros g Hg cid. cbn [clip_kid]. destruct cid as [x|]; [destruct (option_map c_id (g_clip g)); [reflexivity|]|]; apply Hg.
+    - intros i vz fl st _ _ cid. cbn [clip_kid]. rewrite lx_single. apply write_path_nox.
+    - intros i sy c m fs ks _ _ _ Hks cid. rewrite write_clipkids_eq.
+      destruct (lx (flat_map (clip_kid o cid) ks)) eqn:E; [|reflexivity].
+      apply lx_flat_map in E. destruct E as (k & Hk & E). rewrite Forall_forall in Hks. rewrite (Hks k Hk cid) in E. discriminate.
+  Qed.
+
   Lemma xl_content :
     (forall n clip, lx (write_node o n clip) = true -> exists m, In m (all_node n) /\ xlink_trigger m = true) /\
     (forall g clip, lx (write_group o g clip) = true -> exists m, In m (all_group g) /\ xlink_trigger m = true) /\
@@ -805,8 +882,7 @@ Section Xlink.
       + destruct (Hfl clip H) as (m & Hm & Ht). exists m. split; auto. rewrite all_node_text. right. exact Hm.
     - intros i sy c m fs ks _ _ _ Hks clip H. rewrite all_group_eq. destruct clip.
       + rewrite write_group_clip in H. apply lx_flat_map in H. destruct H as (k & Hk & H).
-        destruct k as [|pi pvz fl st| |]; unfold clip_kid in H; try discriminate.
-        rewrite lx_single, write_path_nox in H. discriminate.
+        rewrite (proj1 xl_clip_content k (option_map c_id c)) in H. discriminate.
       + rewrite write_group_noclip, lx_single, uses_xlink_eq in H. rewrite !existsb_app, id_attr_nox, !opt_url_nox in H.
         assert (H' : lx (flat_map (fun k => write_node o k false) ks) = true)
           by (destruct fs, sy; cbn [orb existsb attr_xlink] in H; exact H).
